@@ -31,6 +31,11 @@ Definition peer_code_reason (body : list N) : N * list N :=
   | b0 :: b1 :: reason => (b0 * 256 + b1, reason)
   end.
 
+(* a close caused by an error (transport fault, protocol violation by the peer): a valid status followed by the error
+   text, the whole cut to the 125 bytes a control frame may carry *)
+Definition error_close_spec (status : N) (text : list N) : list N :=
+  be16 status ++ firstn 123 text.
+
 (* local close: the caller's status (at least 1000) and the reason cut to 123 bytes *)
 Definition local_close_spec (code : N) (reason : list N) : list N :=
   be16 (N.max code 1000) ++ firstn 123 reason.
